@@ -1,15 +1,12 @@
 //! C18, supplementary part (e): the harness bodies of the schedule explorer (first use and steady
-//! state of derived codecs, string and reference tables, a failing encode), run by real threads
+//! state of derived codecs, the string table, a failing encode), run by real threads
 //! under Miri's data-race detector. The cooperative scheduler of part (a) orders everything it
 //! does not interleave, so an unsynchronised access inside the library is invisible to it; Miri's
 //! vector clocks see it in whatever schedule the seed produces. Each thread's results are compared
 //! with the same calls made afterwards on a single thread.
 //!
 //! usage: race <threads> <rounds>; prints "RACE-OK calls=<n>" or "RACE-DIFF <what>".
-use desert::{
-    deserialize, serialize_to_byte_vec, BinaryCodec, BinaryDeserializer, BinaryOutput, BinarySerializer, DeduplicatedString,
-    DeserializationContext, Result, SerializationContext,
-};
+use desert::{deserialize, serialize_to_byte_vec, BinaryCodec, BinaryDeserializer, BinarySerializer, DeduplicatedString};
 use std::sync::{Arc, Barrier};
 
 #[derive(BinaryCodec)]
@@ -53,45 +50,6 @@ struct Envelope {
     att: Att,
 }
 
-/// a chain of shared objects through the reference table
-struct Shared(Vec<u8>);
-
-impl BinarySerializer for Shared {
-    fn serialize<O: BinaryOutput>(&self, ctx: &mut SerializationContext<O>) -> Result<()> {
-        // three objects, the first offered twice
-        let objs: Vec<Box<u8>> = self.0.iter().map(|b| Box::new(*b)).collect();
-        ctx.write_var_u32(objs.len() as u32 + 1);
-        for o in objs.iter().chain(objs.first()) {
-            let r: &u8 = o;
-            if ctx.store_ref_or_object(r)? {
-                ctx.write_u8(**o);
-            }
-        }
-        Ok(())
-    }
-}
-
-impl BinaryDeserializer for Shared {
-    fn deserialize(ctx: &mut DeserializationContext<'_>) -> Result<Self> {
-        use desert::BinaryInput;
-        let n = ctx.read_var_u32()? as usize;
-        let mut seen: Vec<u8> = Vec::new();
-        let mut out = Vec::new();
-        for _ in 0..n {
-            let id = ctx.read_var_u32()?;
-            if id == 0 {
-                let b = ctx.read_u8()?;
-                seen.push(b);
-                out.push(b);
-            } else {
-                out.push(*seen.get(id as usize - 1).ok_or_else(|| desert::Error::DeserializationFailure(format!("unknown object {id}")))?);
-            }
-        }
-        out.pop();
-        Ok(Shared(out))
-    }
-}
-
 fn calls() -> Vec<Box<dyn Fn() -> String + Send + Sync>> {
     let outer = Outer {
         inner: Inner { a: 3, n: Some("x".into()) },
@@ -102,7 +60,6 @@ fn calls() -> Vec<Box<dyn Fn() -> String + Send + Sync>> {
     let choice = Choice::C { x: "é".into(), y: 9 };
     let env_ok = Envelope { id: 7, att: Att::Plain(1) };
     let env_bad = Envelope { id: 7, att: Att::Temp };
-    let shared = Shared(vec![1, 2, 3]);
     // bytes, then the bytes of the decoded value encoded again (the subjects have no Debug)
     fn rt<T: BinarySerializer + BinaryDeserializer>(v: &T) -> String {
         match serialize_to_byte_vec(v) {
@@ -115,7 +72,6 @@ fn calls() -> Vec<Box<dyn Fn() -> String + Send + Sync>> {
         Box::new(move || rt(&choice)),
         Box::new(move || rt(&env_ok)),
         Box::new(move || rt(&env_bad)),
-        Box::new(move || rt(&shared)),
         Box::new(|| rt(&(Some(vec![1u16, 2]), "s".to_string(), [7u8; 3]))),
         Box::new(|| format!("{:?}", deserialize::<Outer>(&[1, 2, 3]).map(|_| ()).map_err(|e| format!("{e:?}")))),
         Box::new(|| format!("{:?}", deserialize::<Choice>(&[0, 9]).map(|_| ()).map_err(|e| format!("{e:?}")))),
@@ -138,7 +94,7 @@ fn main() {
             for r in 0..rounds {
                 for k in 0..cs.len() {
                     // each thread starts at a different call, so first uses of different types collide
-                    let i = (k + t * 3 + r) % cs.len();
+                    let i = (k + t * 2 + r) % cs.len();
                     out.push((i, cs[i]()));
                 }
             }
